@@ -234,7 +234,9 @@ def _search_dirs(dirs: List[Path], search_glob: str) -> List[Path]:
     """
     matched_files: List[Path] = []
     for directory in dirs:
-        for path_str in glob.iglob(str(Path(directory) / search_glob), recursive=True):
+        # NOTE: Escape the directory, so that glob metacharacters in its path (e.g. `/srv/app [v2]/components`)
+        #       are matched literally. Only `search_glob` is a pattern.
+        for path_str in glob.iglob(os.path.join(glob.escape(str(Path(directory))), search_glob), recursive=True):
             path = Path(path_str)
             # Skip any subdirectory or file (under the top-level directory) that starts with an underscore
             rel_dir_parts = list(path.relative_to(directory).parts)
